@@ -512,11 +512,12 @@ void register_c17(std::vector<Profile>& v)
     "statements are still queued and re-creates them (same name after a blocking removal with different sinks, new name "
     "after an asynchronous one), drops user sink references, with other threads logging through untouched loggers and "
     "backend stalls around the removal; several threads creating the same new logger at once; scoped CsvWriters (file based, and on a "
-    "user-supplied sink the user keeps referencing, re-created at once under the same name); a sink-name history through the registry "
+    "user-supplied sink the user keeps referencing, re-created at once under the same name); real FileSinks whose callbacks report the closing of "
+    "the file; a sink-name history through the registry "
     "(reference kept past a blocking removal, dropped, name created again and looked up); distinct = distinct event hash; non-trivial = "
     ">=1 removal and >=1 preemption";
   p.real_components = {"LoggerManager / SinkManager (registries, spinlocks)", "FrontendImpl::remove_logger / remove_logger_blocking / "
-                       "create_or_get_logger / get_logger", "BackendWorker::_cleanup_invalidated_loggers", "queues, backend"};
+                       "create_or_get_logger / get_logger", "BackendWorker::_cleanup_invalidated_loggers", "FileSink open / close path", "queues, backend"};
   p.stub_components = {"recording sinks (record their own destruction)", "clock (virtual)", "scheduling (simulator)"};
   p.assumptions = {"API contract respected by construction: a logger is removed only after every thread that used it passed a barrier; no "
                    "same-name re-creation after an asynchronous removal",
